@@ -768,6 +768,10 @@ type txEnd struct {
 	queued int       // bytes ever written
 	start  time.Time // when the queue started draining
 	rate   float64   // bytes per second leaving the queue
+	// adversarial timing (C17): see TxBufferLen / Flush
+	adversarial bool
+	inTick      bool
+	flushGen    int
 }
 
 func (t *txEnd) Write(p []byte) (int, error) {
@@ -781,6 +785,27 @@ func (t *txEnd) Write(p []byte) (int, error) {
 	return n, err
 }
 func (t *txEnd) TxBufferLen() int {
+	if t.adversarial {
+		// only the library's status goroutine calls this (Flush below does not): stay inside the call until the transfer's
+		// Flush has returned (at most 400 ms), and a little longer - a transport whose buffer query is slow at the worst moment
+		t.mu.Lock()
+		t.inTick = true
+		gen := t.flushGen
+		t.mu.Unlock()
+		for dl := time.Now().Add(400 * time.Millisecond); time.Now().Before(dl); time.Sleep(2 * time.Millisecond) {
+			t.mu.Lock()
+			g := t.flushGen
+			t.mu.Unlock()
+			if g != gen {
+				time.Sleep(60 * time.Millisecond)
+				break
+			}
+		}
+	}
+	return t.bufLen()
+}
+
+func (t *txEnd) bufLen() int {
 	t.mu.Lock()
 	defer t.mu.Unlock()
 	if t.start.IsZero() {
@@ -792,9 +817,25 @@ func (t *txEnd) TxBufferLen() int {
 	}
 	return left
 }
+
 func (t *txEnd) Flush() error {
-	for t.TxBufferLen() > 0 {
+	for t.bufLen() > 0 {
 		time.Sleep(5 * time.Millisecond)
+	}
+	if t.adversarial {
+		// return while a status tick is inside TxBufferLen (wait for one, at most 700 ms)
+		for dl := time.Now().Add(700 * time.Millisecond); time.Now().Before(dl); time.Sleep(2 * time.Millisecond) {
+			t.mu.Lock()
+			in := t.inTick
+			t.mu.Unlock()
+			if in {
+				break
+			}
+		}
+		t.mu.Lock()
+		t.flushGen++
+		t.inTick = false
+		t.mu.Unlock()
 	}
 	return nil
 }
@@ -820,6 +861,9 @@ func MainC17(args []string) int {
 		c := cfg{sc: sc, tx: (i/4)%2 == 0}
 		if c.tx {
 			c.rate = []float64{1500, 300}[(i/8)%2] // a fast and a slow modem
+			if i%8 == 1 || i%8 == 3 {
+				c.rate = -1500 // negative: a modem whose buffer query is slow exactly when a transfer's Flush returns
+			}
 		}
 		switch i % 4 {
 		case 0: // no delay, small messages
@@ -931,6 +975,40 @@ func MainC17(args []string) int {
 	}
 	close(ch)
 	wg.Wait()
+	// resumed transfers: an independent peer accepts the library's proposal with a non-zero offset ("FS !100", "FS A64");
+	// the library then sends the rest, and its reports still lie between zero and the total compressed size
+	var peerTraces [][]rec.Event
+	for pi, tok := range []string{"!100", "A64", "!1", "!0"} {
+		ms := MsgSpec{MID: fmt.Sprintf("RESUME%06d", pi), Prec: 3, Size: "medium", Policy: "+"}
+		ps := &PeerScenario{ID: pi + 1, Lib: []MsgSpec{ms}, LibPol: map[string]string{}, Seed: rng.Int63(), Seg: "all", Sched: "free", Locator: "JO29PJ",
+			Status: true, WriteDelayMs: []int{0, 25}[pi%2],
+			Script: &PeerScript{Master: pi%2 == 0, Sid: sidVariants[0], Answers: map[string]string{ms.MID: tok}, Prompt: "CMS via LA2BBB >"}}
+		evs, _ := RunPeerScenario(ps)
+		time.Sleep(600 * time.Millisecond)
+		csize := map[string]int{}
+		sent := [][]string{}
+		for _, e := range evs {
+			if e["op"] == "Unit" && e["kind"] == "Prop" {
+				csize[e["mid"].(string)] = e["csize"].(int)
+			}
+			if e["op"] == "SetSent" && e["rej"] == false {
+				sent = append(sent, []string{e["s"].(string), e["m"].(string)})
+			}
+		}
+		var outEvs []rec.Event
+		for _, e := range evs {
+			if e["op"] == "Status" {
+				c, ok := csize[e["mid"].(string)]
+				if !ok {
+					c = -2
+				}
+				e["csize"] = c
+				outEvs = append(outEvs, e)
+			}
+		}
+		outEvs = append(outEvs, rec.Event{"op": "End", "sent": sent, "received": [][]string{}})
+		peerTraces = append(peerTraces, outEvs)
+	}
 	w, err := rec.NewWriter(*out)
 	if err != nil {
 		fmt.Fprintln(os.Stderr, err)
@@ -938,6 +1016,9 @@ func MainC17(args []string) int {
 	}
 	defer w.Close()
 	reports, mid := 0, 0
+	for i, evs := range peerTraces {
+		w.Write(map[string]interface{}{"delay_ms": 0, "tx": false, "txrate": 0, "timedout": false, "resumed": i + 1}, evs)
+	}
 	for i, evs := range results {
 		w.Write(map[string]interface{}{"delay_ms": int(cfgs[i].delay / time.Millisecond), "tx": cfgs[i].tx, "txrate": int(cfgs[i].rate), "timedout": timedOut[i]}, evs)
 		for _, e := range evs {
@@ -949,6 +1030,6 @@ func MainC17(args []string) int {
 			}
 		}
 	}
-	fmt.Printf("{\"traces\":%d,\"reports\":%d,\"mid_transfer_reports\":%d}\n", len(results), reports, mid)
+	fmt.Printf("{\"traces\":%d,\"reports\":%d,\"mid_transfer_reports\":%d}\n", len(results)+len(peerTraces), reports, mid)
 	return 0
 }
